@@ -63,6 +63,7 @@ class Session:
         eng = ex.Engine(self.modules, **kw)
         eng.hooks['verif_set_generation'] = self._hook_set_generation
         eng.hooks['verif_slots_all_empty'] = self._hook_slots_all_empty
+        eng.hooks['verif_node_count'] = self._hook_node_count
         self.engines.append(eng)
         return eng
 
@@ -131,6 +132,12 @@ class Session:
             raise Inconclusive('node calibration: expected 9 debt slots, found %d' % len(offs))
         self.slot_offs = offs
         return offs
+
+    def _hook_node_count(self, eng, st, fr, ins, args):
+        n = sum(1 for o in st.objs.values() if o.kind == 'heap' and 'debt/list.rs' in o.name and st.live.get(o.id))
+        n += sum(1 for (b, sz, nm) in eng.env.foreign_objs if 'debt/list.rs' in nm)
+        fr.regs[ins.dest] = n
+        return None
 
     def _hook_slots_all_empty(self, eng, st, fr, ins, args):
         offs = self.calibrate_slots()
